@@ -150,7 +150,17 @@ func (w *World) checkFailures() {
 			healthy := 0
 			for _, si := range c.Targets {
 				p := c.Op.Plans[si]
-				if !w.touched(si) && (p == nil || p.Reply == "ok") {
+				// healthy also means that the one connection the manager ever made to the node has
+				// carried all its traffic: a connection that either side gave up (e.g. the server,
+				// because a clock jump made the client's handshake look stalled) is a connection
+				// failure, even though no fault was injected
+				nconns := 0
+				for _, cn := range w.net.AllConns() {
+					if cn.Client == w.mgrs[c.Mgr].Name && cn.Server == addrOf(si) {
+						nconns++
+					}
+				}
+				if !w.touched(si) && nconns == 1 && (p == nil || p.Reply == "ok") {
 					healthy++
 				}
 			}
